@@ -35,6 +35,7 @@ def main():
     ap.add_argument("--tier", default="quick")
     ap.add_argument("--skip-confirm", action="store_true")
     ap.add_argument("--isolated", action="store_true")
+    ap.add_argument("--neutral", action="store_true", help="a change under which the property still holds: any VIOLATION is a false alarm; stored under neutral/")
     a = ap.parse_args()
     mutdir = os.path.abspath(a.mutdir)
     wt = mutdir.split("/out/")[0]
@@ -67,6 +68,11 @@ def main():
         confirm["suite_tail"] = out[-600:]
         sh("git checkout -- . && git clean -fdq packages", cwd=wt)
     results = {}
+    prev_meta = os.path.join(ROOT, "neutral" if a.neutral else "seeded", a.seed_id, "meta.json")
+    if a.skip_confirm and os.path.exists(prev_meta):
+        pm = json.load(open(prev_meta))
+        confirm = pm.get("confirmed_in_scratch_worktree", {})
+        results = pm.get("checks_run", {})      # earlier runs are kept, re-run checks are replaced
     if a.isolated:
         # private mount namespace: a scratch worktree with the change applied is bound over /repo and a
         # scratch copy of /verif over /verif, so /repo itself is never touched and several seeded
@@ -82,7 +88,7 @@ def main():
             print("patch does not apply:", out)
             sh(f"git -C /repo worktree remove --force {base}/repo; rm -rf {base}")
             return 2
-        sh(f"rsync -a --exclude .git --exclude work --exclude replays --exclude seeded {ROOT}/ {base}/verif/")
+        sh(f"rsync -a --exclude .git --exclude work --exclude replays --exclude seeded --exclude neutral {ROOT}/ {base}/verif/")
         try:
             for c in checks:
                 inner = (f"mount --bind {base}/repo /repo && mount --bind {base}/verif /verif && cd /verif && "
@@ -115,7 +121,7 @@ def main():
             print(f"  {a.seed_id} {c}: exit={rc} violations={len(vio)} {first[:160]}")
       finally:
         sh("git checkout -- .", cwd="/repo")
-    dst = os.path.join(ROOT, "seeded", a.seed_id)
+    dst = os.path.join(ROOT, "neutral" if a.neutral else "seeded", a.seed_id)
     os.makedirs(dst, exist_ok=True)
     shutil.copy(patch, os.path.join(dst, "patch.diff"))
     if demo:
@@ -124,6 +130,9 @@ def main():
         "property": prop,
         "summary": meta.get("summary"),
         "needs": meta.get("needs"),
+        "kind": "neutral" if a.neutral else "breaking",
+        "why_property_still_holds": meta.get("why_property_still_holds"),
+        "what_incidental_detail_changes": meta.get("what_incidental_detail_changes"),
         "demo_package": pkg,
         "demo_how": meta.get("demo_how"),
         "confirmed_in_scratch_worktree": confirm,
